@@ -130,3 +130,56 @@ pub fn replay(vs: &[Value], rep: &Report, o: &Opts, threads: usize) {
         rep.sample(v.clone());
     }
 }
+
+/// C17 for the memchr family: the top-level functions and iterators are called
+/// directly (no boxing by the harness) under the counting allocator.
+pub fn alloc_probe(vs: &[Value], rep: &Report, threads: usize, seed: u64) {
+    let idx: Vec<usize> = (0..vs.len()).collect();
+    par_chunks(&idx, threads, |_, ch| {
+        let mut cnt = Counts::default();
+        for &i in ch {
+            let v = &vs[i];
+            let len = get_u(v, "len");
+            let pts: Vec<usize> = get_ints(v, "pts").into_iter().map(|x| x as usize).collect();
+            let j = i.wrapping_add(seed as usize);
+            for st in 0..3 {
+                let (off, s, extra) = if st == 0 { (0, 1, 0) } else { STRETCH[(st + j) % STRETCH.len()] };
+                let nlen = if len == 0 { off + extra } else { off + (len - 1) * s + 1 + extra };
+                let ms: Vec<usize> = pts.iter().map(|m| off + m * s).collect();
+                let (n3, filler) = value_row(3, j);
+                let mut h = vec![filler; nlen];
+                fill_hay(&mut h, &ms, &n3, filler, j);
+                let a0 = allocs();
+                let r = guard(|| {
+                    let mut acc = 0usize;
+                    acc += memchr::memchr(n3[0], &h).unwrap_or(0);
+                    acc += memchr::memchr2(n3[0], n3[1], &h).unwrap_or(0);
+                    acc += memchr::memchr3(n3[0], n3[1], n3[2], &h).unwrap_or(0);
+                    acc += memchr::memrchr(n3[0], &h).unwrap_or(0);
+                    acc += memchr::memrchr2(n3[0], n3[1], &h).unwrap_or(0);
+                    acc += memchr::memrchr3(n3[0], n3[1], n3[2], &h).unwrap_or(0);
+                    let mut it = memchr::memchr_iter(n3[0], &h);
+                    while let Some(x) = Iterator::next(&mut it) {
+                        acc += x;
+                        if let Some(y) = DoubleEndedIterator::next_back(&mut it) {
+                            acc += y;
+                        }
+                    }
+                    acc += memchr::memchr2_iter(n3[0], n3[1], &h).count();
+                    acc += memchr::memchr3_iter(n3[0], n3[1], n3[2], &h).rev().count();
+                    acc += memchr::memchr_iter(n3[1], &h).count();
+                    acc += memchr::arch::all::memchr::One::new(n3[0]).iter(&h).count();
+                    acc += memchr::arch::all::memchr::Three::new(n3[0], n3[1], n3[2]).find(&h).unwrap_or(0);
+                    acc
+                });
+                let al = allocs() - a0;
+                cnt.add("alloc_probe_exec", 12);
+                if r.is_ok() && al != 0 {
+                    rep.finding(Class::Alloc, &format!("memchr-family functions/iterators performed {al} heap allocation(s)"), json!({"vector": v, "run": {"stretch": [off, s, extra]}}));
+                }
+            }
+            cnt.add("vectors", 1);
+        }
+        rep.merge_counts(&cnt.0);
+    });
+}
